@@ -26,10 +26,10 @@ def canonObs (ms : List Msg) (o : Obs) : String :=
   let outs := o.out.map fun x =>
     let same := ms.any fun m => eraseLc m == x.m
     s!"{x.m.index}:{canonIdx ids x.lc}:{b2s x.vis}:{b2s same}"
-  let tbl := o.tbl.map fun t => (canonIdx ids t.id, t.ecu, t.n, t.start, t.endT, t.resume)
+  let tbl := o.tbl.map fun t => (canonIdx ids t.id, t.ecu, t.n, t.start, t.endT, t.resume, t.key)
   let tbl := tbl.toArray.qsort (fun a b => decide (toString a < toString b)) |>.toList
   " ".intercalate outs ++ " | " ++
-    " ".intercalate (tbl.map fun (k, e, n, st, en, r) => s!"{k},{e},{n},{st},{en},{b2s r}")
+    " ".intercalate (tbl.map fun (k, e, n, st, en, r, ky) => s!"{k},{e},{n},{st},{en},{b2s r},{ky}")
 
 def poison (i : Nat) : Msg := { index := i, recv := 0, ecu := 0, tsDms := 0, hasTs := false, ctrlReq := false, lc := 1 }
 
@@ -37,9 +37,20 @@ def poison (i : Nat) : Msg := { index := i, recv := 0, ecu := 0, tsDms := 0, has
 def parseListing (c : String) : Option (List (Nat × LcE)) :=
   if c.trimAscii.toString == "PANIC" then none else
   some ((fields c " ").map fun f =>
-    match (f.splitOn ",").map nat! with
+    match ((f.splitOn ",").map nat!).take 4 with
     | [k, st, r, rel] => (k, ({ id := rel, start := st, resume := if r == 0 then none else some r } : LcE))
     | _ => (0, { id := 0, start := 0, resume := none }))
+
+/-- the keys `adlt remote` orders its listing by: (relative raw id, id of the resumed lifecycle or 0, key) -/
+def parseKeys (c : String) : List (Nat × Nat × Nat) :=
+  (fields c " ").filterMap fun f =>
+    match (f.splitOn ",").map nat! with
+    | [_, _, r, rel, ky] => some (rel, r, ky)
+    | _ => none
+
+/-- every resumed lifecycle has a key strictly behind the key of the lifecycle it resumes -/
+def keysOrdered (ks : List (Nat × Nat × Nat)) : Bool :=
+  ks.all fun (_, r, ky) => r == 0 || ks.all fun (rel', _, ky') => rel' != r || ky' < ky
 
 def parseObs (ms : List Msg) (s : String) : Option Obs :=
   match (s.splitOn " | ").take 2 with
@@ -52,12 +63,13 @@ def parseObs (ms : List Msg) (s : String) : Option Obs :=
       | _ => { m := poison 0, lc := 0, vis := false }
     let tbl := (fields b " ").map fun f =>
       match (f.splitOn ",").map nat! with
-      | [k, e, n, st, en, r] => ({ id := k, ecu := e, n := n, start := st, endT := en, resume := r == 1 } : TblObs)
-      | _ => { id := 0, ecu := 0, n := 0, start := 0, endT := 0, resume := false }
+      | [k, e, n, st, en, r, ky] => ({ id := k, ecu := e, n := n, start := st, endT := en, resume := r == 1, key := ky } : TblObs)
+      | [k, e, n, st, en, r] => ({ id := k, ecu := e, n := n, start := st, endT := en, resume := r == 1, key := st } : TblObs)
+      | _ => { id := 0, ecu := 0, n := 0, start := 0, endT := 0, resume := false, key := 0 }
     some { out := outs, tbl := tbl }
   | _ => none
 
-def listingOracle (o : Obs) (L : Option (List (Nat × LcE))) : String :=
+def listingOracle (o : Obs) (L : Option (List (Nat × LcE))) (keys : List (Nat × Nat × Nat) := []) : String :=
   match L with
   | none => "FAIL:listing-panics"
   | some KL =>
@@ -67,9 +79,10 @@ def listingOracle (o : Obs) (L : Option (List (Nat × LcE))) : String :=
     else if !Spec.sortedIfNoResume L then "FAIL:listing-not-sorted-by-start"
     else if !Spec.resumeIdsIncrease L then "FAIL:resume-origin-id-not-smaller"
     else if (listing L).map (·.id) != L.map (·.id) then "FAIL:listing-differs-from-model-sort"
+    else if !keysOrdered keys then "FAIL:remote-listing-key-resumed-not-behind-origin"
     else "ok"
 
-def oracle (ms : List Msg) (o : Obs) (L : Option (Option (List (Nat × LcE))) := none) : String :=
+def oracle (ms : List Msg) (o : Obs) (L : Option (Option (List (Nat × LcE))) := none) (keys : List (Nat × Nat × Nat) := []) : String :=
   let c05 := if !Spec.C05order ms o then "FAIL:order" else if !Spec.C05nonzero o then "FAIL:zero-id"
              else if !Spec.C06 o then "FAIL:foreign-or-unpublished-id" else "ok"
   let c06 := if Spec.C06 o then "ok" else "FAIL:unpublished-at-delivery"
@@ -78,7 +91,7 @@ def oracle (ms : List Msg) (o : Obs) (L : Option (Option (List (Nat × LcE))) :=
              else if !Spec.C07referenced o then "FAIL:phantom-entry" else if !Spec.C07sum o then "FAIL:sum"
              else match L with
                | none => "ok"
-               | some L => listingOracle o L
+               | some L => listingOracle o L keys
   s!"C05={c05};C06={c06};C07={c07}"
 
 /-- coarse branch coverage of a model run (for generator-quality evidence) -/
@@ -106,7 +119,7 @@ def doLine (line : String) : String :=
   let mobs := if s.panicked then "PANIC" else canonObs ms (observe s)
   let oi := if impl == "" then "-" else if impl == "PANIC" then "C05=PANIC;C06=PANIC;C07=PANIC" else
     match parseObs ms impl with
-    | some o => oracle ms o (some (parseListing (((impl.splitOn " | ").drop 2).headD "")))
+    | some o => oracle ms o (some (parseListing (((impl.splitOn " | ").drop 2).headD ""))) (parseKeys (((impl.splitOn " | ").drop 2).headD ""))
     | none => "C05=FAIL:unparsable;C06=FAIL:unparsable;C07=FAIL:unparsable"
   let om := if s.panicked then "C05=PANIC;C06=PANIC;C07=PANIC" else oracle ms (observe s)
   s!"{mobs}\t{oi}\t{om}\t{branches ms s}"
@@ -176,5 +189,70 @@ def doLine8 (line : String) : String :=
     (if (observe s).tbl.any (·.resume) then ["resume-flagged"] else []) ++
     (if ms.any (·.tsDms == 0) then ["first-ts-0"] else [])
   s!"{mobs}\t{oi}\t{orc (if s.panicked then none else some (observe s))}\t{",".intercalate tags}"
+
+/-! ### C07 at the level of the `adlt remote` binary: the lifecycle table a client ends up with -/
+
+/-- case text with runs `*<n>,<ecu>,<recv>,<ts>,<step>` -/
+def expandCase (line : String) : List Msg :=
+  let items : List (Nat × Nat × Nat × Bool × Bool) := (fields line ";").flatMap fun p =>
+    if p.startsWith "*" then
+      match ((p.drop 1).toString.splitOn ",").map nat! with
+      | [n, e, r, t, st] => (List.range n).map fun k => (e, r + k * st, t + k * st / 100, true, false)
+      | _ => []
+    else
+      match ((p.splitOn ",").map nat!).take 5 with
+      | [e, r, t, h, c] => [(e, r, if h == 1 then t else 0, h == 1, c == 1)]   -- a message without a time stamp has none in the file
+      | _ => []
+  items.zipIdx.map fun ((e, r, t, h, c), i) => { index := i, recv := r, ecu := e, tsDms := t, hasTs := h, ctrlReq := c }
+
+def rankIn (ids : List Nat) (id : Nat) : Nat := match ids.idxOf? id with | some i => i + 1 | none => 0
+
+def rlcModel (ms : List Msg) : String :=
+  let s := run ms
+  let tbl := (s.published.map (·.2)).filter fun l => decide (l.nrCtrl < l.nrMsgs)
+  let tbl := isortStable (fun (a b : Lc) => decide (a.id ≤ b.id)) tbl
+  let ids := tbl.map (·.id)
+  let L := tbl.map fun l => s!"{rankIn ids l.id},{l.ecu},{l.nrMsgs},{l.start},{l.endTime},{b2s l.resume.isSome}"
+  let T := (isortStable (fun (a b : Lc) => decide (a.resumeStart ≤ b.resumeStart)) tbl).map fun l =>
+    s!"{rankIn ids l.id},{l.ecu},{l.nrMsgs},{l.endTime},{b2s l.resume.isSome}"
+  let R := tbl.filterMap fun l => match l.resume with
+    | some r => if ids.contains r.id then some s!"{rankIn ids l.id}-{rankIn ids r.id}" else none
+    | none => none
+  s!"T:{" ".intercalate T} L:{" ".intercalate L} R:{" ".intercalate R}"
+
+def rlcOracle (obs : String) : String :=
+  if !obs.startsWith "T:" then (if obs.startsWith "INCOMPLETE" then "C07=FAIL:remote-file-not-fully-processed" else "C07=FAIL:server-not-reachable") else
+  match (obs.drop 2).toString.splitOn " L:" with
+  | [t, rest] =>
+    match rest.splitOn " R:" with
+    | [l, r] =>
+      let T := fields t " "
+      let L := fields l " "
+      let proj (e : String) : String := match e.splitOn "," with | [k, ec, n, _, en, rs] => s!"{k},{ec},{n},{en},{rs}" | _ => e
+      let Lp := L.map proj
+      let idOf (e : String) : String := (e.splitOn ",").headD ""
+      let pos (k : String) : Nat := match (T.map idOf).idxOf? k with | some i => i | none => 0
+      let resumedOk := (fields r " ").all fun pr => match pr.splitOn "-" with | [b, a] => pos a < pos b | _ => true
+      if T.length != L.length then "C07=FAIL:remote-listing-has-other-lifecycles-than-the-final-table"
+      else if !(T.all fun e => Lp.contains e) || !(Lp.all fun e => T.contains e) then "C07=FAIL:remote-listing-entry-differs-from-the-final-table"
+      else if !resumedOk then "C07=FAIL:remote-listing-resumed-before-origin"
+      else "C07=ok"
+    | _ => "C07=FAIL:unparsable"
+  | _ => "C07=FAIL:unparsable"
+
+def doLineRlc (line : String) : String :=
+  let (c, impl) := match line.splitOn "\t" with
+    | [c, i] => (c, i)
+    | [c] => (c, "")
+    | _ => ("", "")
+  let ms := expandCase c
+  -- the list based model is quadratic in the queue length: beyond a few thousand messages the implementation's own final
+  -- table (part L of its observation) stands in for the model's; the model is tied to it by the `lc` area
+  let big := ms.length > 4000
+  let mobs := if big then impl else rlcModel ms
+  let tags : List String :=
+    (if big then ["big"] else ["small"]) ++ (if (mobs.splitOn " R:").getD 1 "" != "" then ["resume"] else []) ++
+    (if ms.any (·.ctrlReq) then ["ctrl"] else [])
+  s!"{mobs}\t{if impl == "" then "-" else rlcOracle impl}\t{if big then "C07=ok" else rlcOracle mobs}\t{",".intercalate tags}"
 
 end Lcm
